@@ -1,9 +1,10 @@
 SPECIFICATION Spec
 CONSTANTS
   MaxContrib = 2
-  Focus <- FocusAll
+  Focus <- FocusMain
   DEV_NestedSupertype = FALSE
   DEV_OwnerImportTwice = FALSE
   DEV_OwnerNaming = TRUE
+  DEV_WorldMerge = TRUE
 INVARIANTS FailsExactly MatchesContract MatchesByKey OneImportPerKey UniqueNames Canonical Satisfies Idempotent
 CHECK_DEADLOCK FALSE
